@@ -175,7 +175,6 @@ Proof.
     + right. split; [right; exact I1|]. rewrite <- E1. exact I2.
 Qed.
 
-Definition dl_of (T : its) (n : N) : Z := match label T n with Some a => delta_h a | None => 0 end.
 
 Lemma migrations_of_spec T comp ms : migrations_of T comp = Some ms ->
   forall sd, In sd ms -> 0 < dl_of T (fst sd) /\ dl_of T (snd sd) < 0.
